@@ -199,9 +199,33 @@ class Const:
 
 
 def _strip_comments(text: str) -> str:
-    text = re.sub(r"/\*.*?\*/", " ", text, flags=re.S)
-    text = re.sub(r"//[^\n]*", " ", text)
-    return text
+    """Remove // and /* */ comments from C++ source, leaving string and character literals intact
+    (so "eph://" does not swallow the rest of its line)."""
+    out = []
+    i, n = 0, len(text)
+    while i < n:
+        c = text[i]
+        if c == "'" and i > 0 and text[i - 1].isalnum():
+            out.append(c)          # digit separator (1'000), not a character literal
+            i += 1
+        elif c == '"' or c == "'":
+            j = i + 1
+            while j < n and text[j] != c:
+                j += 2 if text[j] == "\\" else 1
+            out.append(text[i:j + 1])
+            i = j + 1
+        elif text.startswith("//", i):
+            j = text.find("\n", i)
+            i = n if j < 0 else j
+            out.append(" ")
+        elif text.startswith("/*", i):
+            j = text.find("*/", i + 2)
+            i = n if j < 0 else j + 2
+            out.append(" ")
+        else:
+            out.append(c)
+            i += 1
+    return "".join(out)
 
 
 def eval_cxx_int(expr: str) -> int:
@@ -372,11 +396,11 @@ def audit_axioms(mods: list[str], theorems: list[str]) -> tuple[dict[str, list[s
     res: dict[str, list[str]] = {}
     flat = re.sub(r"\n\s+", " ", out)
     for line in flat.splitlines():
-        m = re.match(r"'([^']+)' depends on axioms: \[(.*)\]", line)
+        m = re.match(r"'(.+)' depends on axioms: \[(.*)\]", line)
         if m:
             res[m.group(1)] = [a.strip() for a in m.group(2).split(",") if a.strip()]
             continue
-        m = re.match(r"'([^']+)' does not depend on any axioms", line)
+        m = re.match(r"'(.+)' does not depend on any axioms", line)
         if m:
             res[m.group(1)] = []
     return res, out
